@@ -408,6 +408,52 @@ fn cli_part(ctx: &Arc<Ctx>) {
 				ctx.trace(1);
 			}
 		}
+		// the same for a source whose tiles lie on the two deepest levels (zoom 30 and 31 are ordinary levels for every
+		// container and for a conversion)
+		{
+			let m = (1u32 << 31) - 1;
+			let mut deep = TileMap::new();
+			// (tiles of one level close together: the versatiles writer walks every 256-block of a level's bounding box)
+			for k in [(31u8, m, m - 1), (31, m - 3, m), (30, 5, 7), (30, 2, 6), (0, 0, 0)] {
+				deep.insert(k, format!("deep {}/{}/{}", k.0, k.1, k.2).into_bytes());
+			}
+			if flags == 0 {
+				let mut dsrc = MemSource::new("m", deep.clone(), TileFormat::BIN, TileCompression::Uncompressed);
+				if let Ok(ct::Written::Bytes(b)) = ct::write(&rt, Cont::Versatiles, &mut dsrc, &work.0, "in31") {
+					std::fs::write(work.0.join("in31.versatiles"), b).unwrap();
+				}
+			}
+			let expect: BTreeMap<Key, Vec<u8>> = deep.iter().map(|(k, v)| (t_fwd(*k, &o), v.clone())).collect();
+			let mut dprobes: Vec<Key> = expect.keys().copied().collect();
+			dprobes.extend(deep.keys().copied());
+			dprobes.extend([(31, 0, 0), (31, m, m), (30, 7, 5), (31, 0, 3)]);
+			dprobes.sort();
+			dprobes.dedup();
+			match super::http::server_mapping(&work.0, "in31.versatiles", &f, &dprobes, &format!("c06-deep-{flags}")) {
+				Err(e) => {
+					eprintln!("MACHINERY: server for C06 (deep levels): {e}");
+					std::process::exit(2);
+				}
+				Ok(replies) => {
+					for (k, r) in replies {
+						ctx.eval();
+						let case = json!({"kind": "server-deep", "flags": f, "coord": k});
+						match r {
+							super::http::Reply::Dropped(why) => ctx.violation("server with transform flags drops the connection", &format!("serve {f:?} GET {k:?}: {why}"), case),
+							super::http::Reply::Response(resp) => {
+								let body = super::http::decode(&resp).unwrap_or_default();
+								match (expect.get(&k), resp.status) {
+									(Some(v), 200) if &body == v => {}
+									(None, 404) => {}
+									(e, s) => ctx.violation("server with transform flags exposes another coordinate mapping than the conversion", &format!("serve {f:?} GET {k:?} (levels 30/31): status {s} body {:?}, conversion has {:?}", String::from_utf8_lossy(&body), e.map(|v| String::from_utf8_lossy(v).to_string())), case),
+								}
+							}
+						}
+					}
+					ctx.trace(1);
+				}
+			}
+		}
 	}
 	drop(work);
 }
